@@ -2,6 +2,8 @@
  *
  * usage: c13_timeline <seed> <ncases> <maxframes> <nsite> <module>...
  *        c13_timeline --one <module> <case_seed> <maxframes> <nsite>      (replay of one case)
+ * Every case runs in a forked child; an abnormal end is reported as `crash <module> cseed=<n>` (stdout)
+ * and `@@crash <module> cseed=<n>` after the sanitizer report (stderr).
  *
  * One case = one module rendered in lockstep by NCTX contexts that differ only in the
  * output configuration, all driven by the same control script (xmp_set_position,
@@ -29,6 +31,8 @@
  *   site <fmt> <ticksize> <amp> <hex of the accumulators>   /  siteout <buffer_size> <fnv of the bytes in s->buffer>
  */
 #include "vcommon.h"
+#include <unistd.h>
+#include <sys/wait.h>
 #include <xmp.h>
 #include "common.h"
 
@@ -420,13 +424,35 @@ int main(int argc, char **argv)
 	for (i = 0; i < ncases; i++) {
 		const char *path = argv[5 + i % nmods];
 		uint64_t cseed = (seed * 1000003ULL + (uint64_t)i * 7919ULL) & 0xffffffffffffULL;
+		pid_t pid;
+		int status = 0;
+
 		data = read_file(path, &size);
 		if (!data) {
 			printf("skip %s\n", path);
 			continue;
 		}
-		run_case(path, data, size, cseed, maxframes, nsite);
+		/* one child per case: a sanitizer abort in one case must not hide the others */
+		fflush(stdout);
+		fflush(stderr);
+		pid = fork();
+		if (pid == 0) {
+			run_case(path, data, size, cseed, maxframes, nsite);
+			fflush(stdout);
+			_exit(n_fail ? 3 : 0);
+		}
 		free(data);
+		if (pid < 0 || waitpid(pid, &status, 0) < 0) {
+			fprintf(stderr, "fork/wait failed\n");
+			return 2;
+		}
+		if (WIFEXITED(status) && (WEXITSTATUS(status) == 0 || WEXITSTATUS(status) == 3)) {
+			if (WEXITSTATUS(status) == 3)
+				n_fail++;
+		} else {
+			printf("crash %s cseed=%llu status=%d\n", path, (unsigned long long)cseed, status);
+			fprintf(stderr, "\n@@crash %s cseed=%llu\n", path, (unsigned long long)cseed);
+		}
 		fflush(stdout);
 	}
 	printf("done %ld\n", n_fail);
